@@ -434,9 +434,15 @@ func (sc *C10Scenario) Execute(t *testing.T) *core.Outcome {
 		if len(sc.Concurrent) > 0 && len(sc.NetFaults) == 0 && !(sc.Store.Kind == "ds" && sc.Store.ChunkSize > 0) {
 			sc.concurrentPhase(out, st, m, &rec)
 		}
-		// isolation
+		// isolation, and: offsets increase with append order over the whole log (also after concurrent appends)
 		evs, _, err := st.Read(ctx, eventbus.OffsetOldest, 0)
 		if err == nil {
+			for i := 1; i < len(evs) && !(kind == "ds"); i++ {
+				if !offLess(evs[i-1].Offset, evs[i].Offset) {
+					viol("offset-order", "offset-order", "the log holds offset %q before %q: offsets do not increase with append order", evs[i-1].Offset, evs[i].Offset)
+					break
+				}
+			}
 			for _, e := range evs {
 				if e.Type == "other-store" {
 					viol("stores-not-isolated", "isolation", "an event appended to a separately created store shows up in this one")
